@@ -5,7 +5,7 @@
 From Coq Require Import List NArith Bool.
 From V Require Proofs.ExprsTie2.   (* expressions of cube.rs / ecube.rs / bdd.rs / canonization.rs, regenerated from the Rust source, equal the model's *)
 From V Require Proofs.ExprsTie4.   (* the bodies of sop.rs / esop.rs / soes.rs (and the remaining functions of cube.rs / ecube.rs), regenerated from the Rust source, equal the model's *)
-From V Require Import Spec.TwoLevelCost Checkers.Check Proofs.CheckSoundCube.   (* the extracted checkers and their soundness proofs, pinned at the end of this file *)
+From V Require Import Spec.TwoLevelCost Checkers.Check Proofs.CheckSoundCube Proofs.CheckSoundEq.   (* the extracted checkers and their soundness proofs, pinned at the end of this file *)
 From V Require Import Base.Res Model.Kernels Model.TwoLevel Spec.Bfun Proofs.Tabulate Proofs.EcubeProofs.
 Import ListNotations.
 Open Scope N_scope.
@@ -164,3 +164,40 @@ Print Assumptions C13_checker_soes_or_iff.
 Print Assumptions C13_checker_soes_or_value_iff.
 Print Assumptions C13_checker_soes_or_model.
 Print Assumptions C13_checker_text_ecube.
+
+(* ---- equality is semantic equality: the checker of "a == b holds exactly when a and b evaluate alike on every
+   assignment" (no side condition; the structural equality of the model passes when the masks are within 32 bits) *)
+Theorem C13_checker_ecube_sem_eqb_iff : forall a b,
+  ecube_sem_eqb a b = true <-> forall m, ecube_value a m = ecube_value b m.
+Proof. exact CheckSoundEq.ecube_sem_eqb_iff. Qed.
+
+Theorem C13_checker_ecube_sem_eqb_iff_32 : forall a b,
+  ecube_sem_eqb a b = true <-> forall m, m < 2 ^ 32 -> ecube_value a m = ecube_value b m.
+Proof. exact CheckSoundEq.ecube_sem_eqb_iff_32. Qed.
+
+Theorem C13_checker_ecube_sem_eqb_eq : forall a b,
+  evars a < 2 ^ 32 -> evars b < 2 ^ 32 -> (ecube_sem_eqb a b = true <-> a = b).
+Proof. exact CheckSoundEq.ecube_sem_eqb_eq. Qed.
+
+Theorem C13_checker_ecube_eq_iff : forall a b r,
+  chk_ecube_eq a b r = true <-> (r = true <-> forall m, ecube_value a m = ecube_value b m).
+Proof. exact CheckSoundEq.chk_ecube_eq_iff. Qed.
+
+Theorem C13_checker_ecube_eq_iff_32 : forall a b r,
+  chk_ecube_eq a b r = true <-> (r = true <-> forall m, m < 2 ^ 32 -> ecube_value a m = ecube_value b m).
+Proof. exact CheckSoundEq.chk_ecube_eq_iff_32. Qed.
+
+Theorem C13_checker_ecube_eq_model : forall a b,
+  evars a < 2 ^ 32 -> evars b < 2 ^ 32 -> chk_ecube_eq a b (ecube_eqb a b) = true.
+Proof. exact CheckSoundEq.chk_ecube_eq_model. Qed.
+
+Example C13_checker_ecube_eq_model_needs_bound :
+  chk_ecube_eq (mkEcube (2 ^ 32) false) (mkEcube 0 false) (ecube_eqb (mkEcube (2 ^ 32) false) (mkEcube 0 false)) = false.
+Proof. exact CheckSoundEq.chk_ecube_eq_model_needs_bound. Qed.
+
+Print Assumptions C13_checker_ecube_sem_eqb_iff.
+Print Assumptions C13_checker_ecube_sem_eqb_iff_32.
+Print Assumptions C13_checker_ecube_sem_eqb_eq.
+Print Assumptions C13_checker_ecube_eq_iff.
+Print Assumptions C13_checker_ecube_eq_iff_32.
+Print Assumptions C13_checker_ecube_eq_model.
